@@ -3,6 +3,7 @@ package response
 import (
 	"encoding/json"
 	"encoding/xml"
+	"errors"
 	"sync"
 
 	restful "github.com/emicklei/go-restful/v3"
@@ -69,6 +70,23 @@ func (v Value) Build() interface{} {
 	return nil
 }
 
+// failFrom is a writer that fails from its k-th Write on, always with the same error value.
+type failFrom struct {
+	n, from int
+	err     error
+	failed  bool
+}
+
+func (f *failFrom) Write(p []byte) (int, error) {
+	i := f.n
+	f.n++
+	if i >= f.from {
+		f.failed = true
+		return 0, f.err
+	}
+	return len(p), nil
+}
+
 type chunkRec struct{ chunks []int }
 
 func (c *chunkRec) Write(p []byte) (int, error) {
@@ -110,6 +128,20 @@ func FactsOf(v Value) Facts {
 	rx := &chunkRec{}
 	f.EXFail = xml.NewEncoder(rx).Encode(val) != nil
 	f.EX = rx.chunks
+	if f.EXFail {
+		// a value that does not marshal: which error does Encode return when its i-th Write fails?
+		any := false
+		mask := make([]bool, len(f.EX))
+		for i := range f.EX {
+			w := &failFrom{from: i, err: errors.New("shadow write failure")}
+			err := xml.NewEncoder(w).Encode(val)
+			mask[i] = w.failed && err != w.err
+			any = any || mask[i]
+		}
+		if any {
+			f.EXMask = mask
+		}
+	}
 	if len(factsCache) > 20000 {
 		factsCache = map[Value]Facts{}
 	}
